@@ -757,3 +757,449 @@ def gen_pivot_heavy(rng):
         else:
             sc.add("pop")
     return sc
+
+
+# ----------------------------------------------------------------------------------------------------------------
+# round 2: batches of literals processed in one propagation, rows with known terms, relations over basic variables
+# ----------------------------------------------------------------------------------------------------------------
+def fm_ok(cons, nv):
+    try:
+        return fm_feasible(cons, nv) is not None
+    except OverflowError:
+        return None
+
+
+def gen_batch(rng):
+    """(A) several LRA literals enqueued by ONE unit-propagation batch: a decision variable d with clauses (!d | L_i); one L_i
+    is processed first and tightens a bound past the constant of another literal that is already assigned but still pending
+    (the "propositional inconsistency" branches of assertion::propagate_* and row::propagate_*). A literal assumed one level
+    earlier makes lower and upper bound reasons different literals. After backtracking, conjunctions of the theory literals
+    are checked against exact feasibility (an invalid explanation leaves an invalid learnt clause behind)."""
+    sc = Scenario()
+    sc.add("reset")
+    nv = rng.randint(1, 3)
+    for _ in range(nv):
+        sc.add("var")
+    sc.nvars = nv
+    rels = []          # (kind, l, r) of pure theory literals by request index
+    by_expr = {}       # expression key -> list of (index, kind, const)
+
+    def req(kind, terms, const):
+        sc.add("rel %s %s | %s" % (kind, lin_str(terms, 0), lin_str([], const)))
+        rels.append((kind, (terms, 0), ([], const)))
+        by_expr.setdefault(tuple(terms), []).append((len(rels) - 1, kind, const))
+    consts = [0, 1, 2, 3]
+    for v in range(nv):
+        for _ in range(rng.randint(2, 4)):
+            req(rng.choice(["leq", "geq", "leq", "geq", "lt", "gt"]), [(v, 1)], rng.choice(consts))
+    sums = []
+    if nv >= 2:
+        for _ in range(rng.randint(0, 2)):
+            vs = sorted(rng.sample(range(nv), 2))
+            e = [(vs[0], rng.choice([1, 1, 2, -1])), (vs[1], rng.choice([1, -1, 1, 2]))]
+            sums.append(e)
+            for _ in range(rng.randint(2, 3)):
+                req(rng.choice(RELS), e, rng.choice([-1, 0, 1, 2, 3, 4, 5]))
+    n_th = len(rels)
+    sc.add("bvar")
+    d = n_th
+    # contradictory (or nearly) pairs on one expression, to be forced together by d
+    forced = []
+    keys = list(by_expr)
+    for _ in range(rng.randint(1, 2)):
+        k = rng.choice(keys)
+        lst = by_expr[k]
+        if len(lst) >= 2:
+            (i, ki, ci), (j, kj, cj) = rng.sample(lst, 2)
+            # want (expr <= small) together with (expr >= large) in some polarity
+            lo_i = ki in ("geq", "gt")
+            si = 1
+            sj = 1 if (kj in ("geq", "gt")) != lo_i else 0
+            if rng.random() < 0.3:
+                si, sj = rng.randint(0, 1), rng.randint(0, 1)
+            forced += [(i, si), (j, sj)]
+    if sums and rng.random() < 0.7:
+        # row branch: bounds on the summands and a literal on the sum, all in one batch
+        e = rng.choice(sums)
+        for v, c in e:
+            cand = by_expr.get(((v, 1),), [])
+            if cand:
+                i, ki, ci = rng.choice(cand)
+                forced.append((i, 1 if rng.random() < 0.8 else 0))
+        i, ki, ci = rng.choice(by_expr[tuple(e)])
+        forced.append((i, rng.randint(0, 1)))
+    rng.shuffle(forced)
+    seen = set()
+    for i, sg in forced:
+        if i in seen:
+            continue
+        seen.add(i)
+        sc.add("clause %d 0 %d %d" % (d, i, sg))
+    # one level below: a literal that gives the other bound a reason of its own
+    if rng.random() < 0.65:
+        sc.add("assume %d %d" % (rng.randrange(n_th), rng.randint(0, 1)))
+    sc.add("assume %d 1" % d)
+    for _ in range(rng.randint(0, 2)):
+        sc.add("assume %d %d" % (rng.randrange(n_th), rng.randint(0, 1)))
+    for _ in range(4):
+        sc.add("pop")
+    sc.expect_checklits = []
+    for _ in range(rng.randint(2, 4)):
+        sub = rng.sample(range(n_th), min(n_th, rng.randint(2, 4)))
+        sgs = [rng.randint(0, 1) for _ in sub]
+        sc.add("checklits " + " ".join("%d %d" % (i, s) for i, s in zip(sub, sgs)))
+        cons = [cons_of_rel(rels[i][0] if s else NEG[rels[i][0]], rels[i][1], rels[i][2]) for i, s in zip(sub, sgs)]
+        sc.expect_checklits.append(fm_ok(cons, nv))
+    return sc
+
+
+def gen_const_rows(rng):
+    """(B) slack variables made with the public new_var(lin) on expressions WITH a known term (and over other slacks), bounded
+    directly with set_lb / set_ub as executor.cpp does; the pivots that follow have leaving rows with a known term and other
+    rows containing the entering variable with coefficients other than 1; then NEW relations over the variables of the
+    affected rows (the row is substituted into the new constraint), asserted at root; every verdict is compared with exact
+    feasibility."""
+    sc = Scenario()
+    sc.add("reset")
+    nv = rng.randint(2, 3)
+    for _ in range(nv):
+        sc.add("var")
+    defs = {}       # var -> (dict structural var -> coef, const)
+    for v in range(nv):
+        defs[v] = ({v: Fraction(1)}, Fraction(0))
+    nxt = nv
+    seen = set()
+    for _ in range(rng.randint(2, 4)):
+        pool = list(range(nv)) + ([rng.randrange(nv, nxt)] if nxt > nv and rng.random() < 0.35 else [])
+        vs = sorted(rng.sample(pool, min(len(pool), rng.randint(2, 3))))
+        terms = [(v, rng.choice([1, 2, 3, -1, -2, Fraction(1, 2)])) for v in vs]
+        const = rng.choice([0, 1, 3, -2, 5, Fraction(1, 2)])
+        key = (tuple(terms), const)
+        if key in seen:
+            continue
+        seen.add(key)
+        sc.add("varlin %s" % lin_str(terms, const))
+        acc, k = {}, Fraction(const)
+        for v, c in terms:
+            tv, kv = defs[v]
+            k += Fraction(c) * kv
+            for w, dd in tv.items():
+                acc[w] = acc.get(w, 0) + Fraction(c) * dd
+        defs[nxt] = (acc, k)
+        nxt += 1
+    sc.nvars = nv
+    cons = []
+    sc.expect_verdicts = []
+    alive = True
+    nreq = 0
+
+    def expanded(terms, const):
+        acc, k = {}, Fraction(const)
+        for v, c in terms:
+            tv, kv = defs[v]
+            k += Fraction(c) * kv
+            for w, dd in tv.items():
+                acc[w] = acc.get(w, 0) + Fraction(c) * dd
+        return acc, k
+
+    def push_expect():
+        nonlocal alive
+        if alive:
+            f = fm_ok(cons, nv)
+            sc.expect_verdicts.append(f)
+            if f is False:
+                alive = False
+    for _ in range(rng.randint(4, 10)):
+        r = rng.random()
+        if r < 0.5:
+            v = rng.randrange(nv, nxt) if rng.random() < 0.8 else rng.randrange(nv)
+            lower = rng.random() < 0.5
+            c = rng.choice([-4, -1, 0, 1, 2, 4, 6, 9])
+            strict = rng.random() < 0.2
+            sc.add("%s %d %s,%s" % ("setlb" if lower else "setub", v, fr(c), fr((1 if lower else -1) if strict else 0)))
+            acc, k = defs[v]
+            if lower:      # acc + k >= c   ->  -acc <= k - c
+                cons.append(({w: -x for w, x in acc.items()}, strict, k - c))
+            else:
+                cons.append((dict(acc), strict, c - k))
+            push_expect()
+        else:
+            # a NEW relation over variables of the rows (structural variables that may have become basic, slacks)
+            pool = list(range(nxt))
+            vs = sorted(rng.sample(pool, rng.randint(1, min(2, len(pool)))))
+            terms = [(v, rng.choice([1, 2, -1, 3, Fraction(1, 2), -2])) for v in vs]
+            const = rng.choice([-3, 0, 1, 2, 5, 8])
+            kind = rng.choice(RELS)
+            sc.add("rel %s %s | %s" % (kind, lin_str(terms, 0), lin_str([], const)))
+            sign = 1 if rng.random() < 0.75 else 0
+            sc.add("assert %d %d" % (nreq, sign))
+            nreq += 1
+            acc, k = expanded(terms, 0)
+            kk = kind if sign else NEG[kind]
+            rhs = Fraction(const) - k
+            if kk in ("lt", "leq"):
+                cons.append((dict(acc), kk == "lt", rhs))
+            else:
+                cons.append(({w: -x for w, x in acc.items()}, kk == "gt", -rhs))
+            push_expect()
+    # a short search-like walk on top (differential / parallel comparison)
+    for _ in range(rng.randint(2, 6)):
+        if nreq and rng.random() < 0.7:
+            sc.add("assume %d %d" % (rng.randrange(nreq), rng.randint(0, 1)))
+        else:
+            sc.add("pop")
+    return sc
+
+
+def gen_semantic_probe_pivoted(rng):
+    """(C) the target relation is requested AFTER root assertions on sums forced pivots (one of its variables is basic with a
+    coefficient other than 1 in the request); further root bounds follow; then the literal must still mean its relation at
+    rational probe points."""
+    sc = Scenario()
+    sc.add("reset")
+    nv = rng.randint(2, 3)
+    for _ in range(nv):
+        sc.add("var")
+    q = [Fraction(rng.choice([1, 2, 3, 4, 5, -1, -2]), rng.choice([1, 1, 2])) for _ in range(nv)]
+    roots = []
+    k = 0
+
+    def root(terms, kind, const):
+        nonlocal k
+        sc.add("rel %s %s | %s" % (kind, lin_str(terms, 0), lin_str([], const)))
+        sc.add("assert %d 1" % k)
+        roots.append((kind, (terms, 0), ([], const)))
+        k += 1
+    # sums whose asserted bound is violated by the initial all-zero values: check() has to pivot
+    for _ in range(rng.randint(1, 2)):
+        vs = sorted(rng.sample(range(nv), 2))
+        terms = [(vs[0], rng.choice([1, 2, -1])), (vs[1], rng.choice([1, 3, -1, Fraction(1, 2)]))]
+        val = eval_lin((terms, 0), q)
+        if val > 0:
+            kd = rng.choice(["geq", "gt"])
+            root(terms, kd, (val - rng.choice([0, Fraction(1, 2), 1] if kd == "geq" else [Fraction(1, 2), 1])) if val > 1 else val / 2)
+        elif val < 0:
+            kd = rng.choice(["leq", "lt"])
+            root(terms, kd, (val + rng.choice([0, Fraction(1, 2)] if kd == "leq" else [Fraction(1, 2)])) if val < -1 else val / 2)
+        else:
+            root(terms, "leq", 1)
+    # the target: c*x (sometimes c*x + d*y) against a constant at / next to the probe point
+    x = rng.randrange(nv)
+    terms = [(x, rng.choice([2, 3, -2, Fraction(1, 2), -1, Fraction(-3, 2)]))]
+    if rng.random() < 0.3:
+        y = rng.choice([v for v in range(nv) if v != x])
+        terms = sorted(terms + [(y, rng.choice([1, -1, 2]))])
+    kind = rng.choice(RELS + ["eq"])
+    const = eval_lin((terms, 0), q) + rng.choice([0, 0, 0, 1, -1, Fraction(1, 2)])
+    sc.add(("eq %s | %s" if kind == "eq" else "rel " + kind + " %s | %s") % (lin_str(terms, 0), lin_str([], const)))
+    tk = k
+    k += 1
+    sc.probe_target = (x, terms)
+    # further bounds on the other variables (satisfied by q)
+    for v in range(nv):
+        if rng.random() < 0.6:
+            if rng.random() < 0.5:
+                root([(v, 1)], "leq", q[v] + rng.choice([0, 1, 2]))
+            else:
+                root([(v, 1)], "geq", q[v] - rng.choice([0, 1, 2]))
+    eqs = []
+    for v in range(nv):
+        sc.add("eq %s | %s" % (lin_str([(v, 1)], 0), lin_str([], q[v])))
+        eqs.append(k)
+        k += 1
+    root_ok = all(rel_holds(rk, eval_lin(l, q), eval_lin(rt, q)) for rk, l, rt in roots)
+    holds = rel_holds(kind, eval_lin((terms, 0), q), Fraction(const))
+    exp = []
+    for sign in ((1, 0) if kind != "eq" else (1,)):
+        sc.add("checklits %d %d %s" % (tk, sign, " ".join("%d 1" % e for e in eqs)))
+        exp.append(root_ok and (holds == bool(sign)))
+    return sc, exp, fm_ok([cons_of_rel(*r) for r in roots], nv)
+
+
+def collect_c_lines(text, prefix):
+    """per scenario: the last token of every 'C <prefix> ...' line"""
+    out, cur = [], None
+    for line in text.split("\n"):
+        if line.startswith("E reset"):
+            cur = []
+            out.append(cur)
+        elif cur is not None and line.startswith("C " + prefix + " "):
+            cur.append(line.split()[-1] == "1")
+    return out
+
+
+def check_expectations(ctx, report, scs, impl_text, tag):
+    """compare the verdicts / checklits results of the implementation with the exact expectations of the generator"""
+    ver = collect_c_lines(impl_text, "verdict")
+    chk = collect_c_lines(impl_text, "checklits")
+    n = bad = 0
+    for si, sc in enumerate(scs):
+        for kind, exp, got in (("verdict", getattr(sc, "expect_verdicts", None), ver[si] if si < len(ver) else []),
+                               ("checklits", getattr(sc, "expect_checklits", None), chk[si] if si < len(chk) else [])):
+            if not exp:
+                continue
+            for i, (e, g) in enumerate(zip(exp, got)):
+                if e is None:
+                    break
+                n += 1
+                if e != g:
+                    bad += 1
+                    report(ctx, "lra:verdict:" + tag + ":" + ("unsat-claimed-on-feasible" if e else "sat-claimed-on-infeasible"),
+                           {"kind": "verdict-differs-from-exact-feasibility", "what": kind, "index": i, "script": sc.text(),
+                            "expected_feasible": e, "implementation_returned": g})
+                    break
+                if kind == "verdict" and not e:
+                    break
+    return n, bad
+
+
+def classify_branches(impl):
+    """Which lemma / conflict producing branches of assertion::propagate_* and row::propagate_* the run reached, read off the
+    trace: per clause the kind (early / unate / row), the bound that moved, the operator of the hit assertion, lemma or
+    conflict (= the 'already assigned, not yet processed' inconsistency branches)."""
+    cnt = {}
+    for sc in impl:
+        for r in sc:
+            E, R, S = r["E"], r["R"], r["S"]
+            if not E or not R or not S or not R.startswith("R prop"):
+                continue
+            try:
+                st = parse_state(S)
+            except (IndexError, ValueError):
+                continue
+            tk = E.split()
+            if tk[1] == "propagate":
+                pv, sg = int(tk[2]), tk[3] == "1"
+                if pv not in st["asrts"]:
+                    continue
+                op, xp, _ = st["asrts"][pv]
+                moved = "ub" if (op == "le") == sg else "lb"
+            else:
+                pv, xp, moved = None, int(tk[2]), ("lb" if tk[1] == "setlb" else "ub")
+            rt = R.split()
+            ok = rt[2] == "1"
+            clauses = []
+            for t in rt[3:]:
+                if t.startswith("cnfl=") and len(t) > 5:
+                    clauses.append((t[5:].split(","), True))
+                elif t.startswith("{"):
+                    clauses.append((t[1:-1].split(","), False))
+            for lits, is_cnfl in clauses:
+                b0 = int(lits[0][:-1])
+                what = "conflict" if is_cnfl else "lemma"
+                if is_cnfl and pv is not None and b0 == pv and len(lits) == 2:
+                    key = "early_conflict_" + moved
+                elif is_cnfl and pv is None and b0 == 0:
+                    key = "early_conflict_" + moved
+                elif b0 in st["asrts"]:
+                    op0, x0, _ = st["asrts"][b0]
+                    if x0 == xp and len(lits) == 2:
+                        key = "unate_%s_%s_%s" % (moved, op0, what)
+                    else:
+                        row = st["rows"].get(x0)
+                        sgn = "?"
+                        if row and xp in row[0]:
+                            sgn = "pos" if row[0][xp] > 0 else "neg"
+                        key = "row_%s_%s_%s_%s" % (moved, sgn, op0, what)
+                else:
+                    key = "other_" + what
+                cnt[key] = cnt.get(key, 0) + 1
+    return cnt
+
+
+def gcov_branches(vlib, script, timeout=120):
+    """line coverage (gcov) of the lemma / conflict statements of lra_constraint.cpp on the given script"""
+    import glob
+    import os
+    exe, log = vlib.cxx_build("h_lra_cov", "h_lra.cpp", vlib.SMT_SRC, vlib.SMT_INC, flags=("-O0", "--coverage"), libs=("-lpthread", "--coverage"))
+    if not exe:
+        return {"error": "coverage build failed"}
+    bd = os.path.join(vlib.BUILD, "h_lra_cov")
+    for f in glob.glob(os.path.join(bd, "*.gcda")):
+        os.remove(f)
+    vlib.run([exe], stdin=script, timeout=timeout)
+    g = glob.glob(os.path.join(bd, "lra_constraint.*.gcda"))
+    if not g:
+        return {"error": "no coverage data"}
+    r = vlib.run(["gcov", "-t", g[0]], cwd=bd, timeout=60)
+    out, on = {}, False
+    for line in (r.out or "").split("\n"):
+        if "0:Source:" in line:
+            on = line.rstrip().endswith("lra_constraint.cpp")
+            continue
+        if not on:
+            continue
+        parts = line.split(":", 2)
+        if len(parts) < 3:
+            continue
+        cntS, ln, txt = parts[0].strip(), parts[1].strip(), parts[2]
+        if "return false;" in txt or "th.record(" in txt:
+            hits = 0 if cntS in ("#####", "-", "=====") else int(cntS.rstrip("*"))
+            out["L%s %s" % (ln, "conflict" if "return false" in txt else "lemma")] = hits
+    return out
+
+
+def gen_row_batch(rng):
+    """(A, rows) a literal on a sum and bound literals on its summands, contradictory along the row, all forced by one
+    decision: reaches the 'already assigned' conflict branches of row::propagate_lb / propagate_ub for every sign
+    combination; one summand's bound may be assumed a level earlier (different reasons)."""
+    sc = Scenario()
+    sc.add("reset")
+    nv = rng.randint(2, 3)
+    for _ in range(nv):
+        sc.add("var")
+    sc.nvars = nv
+    rels = []
+
+    def req(kind, terms, const):
+        sc.add("rel %s %s | %s" % (kind, lin_str(terms, 0), lin_str([], const)))
+        rels.append((kind, (terms, 0), ([], const)))
+        return len(rels) - 1
+    vs = sorted(rng.sample(range(nv), rng.randint(2, nv)))
+    e = [(v, rng.choice([1, -1, 2, -2, Fraction(1, 2)])) for v in vs]
+    upper = rng.random() < 0.5          # contradict through the row's upper bound (else lower)
+    total = Fraction(0)
+    blits = []
+    for v, c in e:
+        a = rng.choice([-2, -1, 0, 1, 2, 3])
+        want_ub = (c > 0) == upper      # which bound of v enters the row bound
+        if want_ub:
+            kind, sign = rng.choice([("leq", 1), ("lt", 1), ("gt", 0), ("geq", 0)])
+        else:
+            kind, sign = rng.choice([("geq", 1), ("gt", 1), ("lt", 0), ("leq", 0)])
+        blits.append((req(kind, [(v, 1)], a), sign))
+        total += Fraction(c) * a
+    off = rng.choice([0, 0, 1, 1, 2, -1])
+    if upper:     # row <= total: assert something that needs more
+        kind, sign = rng.choice([("geq", 1), ("gt", 1), ("leq", 0), ("lt", 0)])
+        slit = (req(kind, e, total + off), sign)
+    else:
+        kind, sign = rng.choice([("leq", 1), ("lt", 1), ("geq", 0), ("gt", 0)])
+        slit = (req(kind, e, total - off), sign)
+    # some unrelated literals as well
+    for _ in range(rng.randint(0, 2)):
+        req(rng.choice(RELS), [(rng.randrange(nv), 1)], rng.choice([0, 1, 2]))
+    n_th = len(rels)
+    sc.add("bvar")
+    d = n_th
+    forced = blits + [slit]
+    early = None
+    if rng.random() < 0.5:
+        early = rng.choice(blits)
+        forced = [f for f in forced if f is not early]
+    rng.shuffle(forced)
+    for i, sg in forced:
+        sc.add("clause %d 0 %d %d" % (d, i, sg))
+    if early:
+        sc.add("assume %d %d" % early)
+    sc.add("assume %d 1" % d)
+    for _ in range(3):
+        sc.add("pop")
+    sc.expect_checklits = []
+    for _ in range(rng.randint(2, 3)):
+        sub = rng.sample(range(n_th), min(n_th, rng.randint(2, 4)))
+        sgs = [rng.randint(0, 1) for _ in sub]
+        sc.add("checklits " + " ".join("%d %d" % (i, s) for i, s in zip(sub, sgs)))
+        cons = [cons_of_rel(rels[i][0] if s else NEG[rels[i][0]], rels[i][1], rels[i][2]) for i, s in zip(sub, sgs)]
+        sc.expect_checklits.append(fm_ok(cons, nv))
+    return sc
